@@ -10,6 +10,7 @@ import warp as wp
 
 from mujoco_warp._src.collision_core import contact_params
 from mujoco_warp._src.collision_core import write_contact
+from mujoco_warp._src.collision_primitive_core import capsule_capsule
 from mujoco_warp._src.collision_primitive_core import plane_capsule
 from mujoco_warp._src.collision_primitive_core import plane_sphere
 from mujoco_warp._src.collision_primitive_core import sphere_capsule
@@ -238,3 +239,26 @@ def k_normalize_with_norm(x: wp.vec3, n_out: wp.array[wp.vec3], norm_out: wp.arr
   n, norm = normalize_with_norm(x)
   n_out[0] = n
   norm_out[0] = norm
+
+
+@wp.kernel
+def k_capsule_capsule(
+  cap1_pos: wp.vec3,
+  cap1_axis: wp.vec3,
+  cap1_radius: float,
+  cap1_half_length: float,
+  cap2_pos: wp.vec3,
+  cap2_axis: wp.vec3,
+  cap2_radius: float,
+  cap2_half_length: float,
+  margin: float,
+  dist_out: wp.array[wp.vec2],
+  pos_out: wp.array[wp.vec3],
+  normal_out: wp.array[wp.vec3],
+):
+  dist, pos, normal = capsule_capsule(cap1_pos, cap1_axis, cap1_radius, cap1_half_length, cap2_pos, cap2_axis, cap2_radius, cap2_half_length, margin)
+  dist_out[0] = dist
+  pos_out[0] = pos[0]
+  pos_out[1] = pos[1]
+  normal_out[0] = normal[0]
+  normal_out[1] = normal[1]
